@@ -29,7 +29,13 @@ DEFAULT_OPTS = {
     'time_at': [],              # list of pattern strings allowed
     'reassign_after_get': False,
     'builtins': 0.5,            # probability that a script calls built-ins
+    'extras': 0.3,              # per-feature probability, see EXTRAS
 }
+
+# Less-travelled language features, each switched on per script (swarm
+# style) with probability opts['extras'].
+EXTRAS = ('macros', 'strvars', 'functions', 'nested_calls', 'break',
+          'interp', 'elseif', 'logic', 'wait', 'iter')
 
 
 class ScriptGen:
@@ -55,6 +61,12 @@ class ScriptGen:
         self.mz = [b for b in population if b.get('product') == 32]
         self.mat = [b for b in population if b.get('product') == 57]
         self.commands = []      # (tag, kind, target text)
+        self.fx = {f for f in EXTRAS if rng.random() < self.o['extras']} \
+            if self.o['extras'] else set()
+        self.num_macros = []    # (name, value)
+        self.name_macros = []   # (identifier, kind) kind: light|group
+        self.functions = []     # (name, k): returns its argument plus k
+        self.uniq = 0
 
     # -- helpers ----------------------------------------------------------
     def _num(self, lo, hi):
@@ -82,8 +94,14 @@ class ScriptGen:
         if k == 'all':
             return 'all', 'all'
         if k == 'light':
+            ids = [n for n, kk in self.name_macros if kk == 'light']
+            if ids and r.random() < 0.4:
+                return r.choice(ids), 'light'
             return self._quote(self._light()), 'light'
         if k == 'group':
+            ids = [n for n, kk in self.name_macros if kk == 'group']
+            if ids and not unk and r.random() < 0.4:
+                return 'group ' + r.choice(ids), 'group'
             g = 'NoGroup' if unk else r.choice(self.groups)
             return 'group ' + self._quote(g), 'group'
         if k == 'location':
@@ -105,6 +123,13 @@ class ScriptGen:
         if allow_var and self.vars and r.random() < 0.25:
             v = r.choice(self.vars)
             return '{{{} % {} + {}}}'.format(v, max(hi - lo, 1), lo)
+        fits = [n for n, v in self.num_macros if lo <= v <= hi]
+        if fits and r.random() < 0.25:
+            return r.choice(fits)
+        if self.functions and hi - lo >= 5 and r.random() < 0.25:
+            name, k = r.choice(self.functions)
+            n = max(self._num(lo, hi), lo + k)
+            return '[{} {}]'.format(name, n - k)
         if self.use_builtins and r.random() < 0.2:
             n = self._num(lo, hi)
             return r.choice([
@@ -160,8 +185,12 @@ class ScriptGen:
                 # forget the routine's parameters (Context.exit_matrix clears
                 # the locals); C03's business, avoided here
                 choices.append('matrix_block')
+        if 'wait' in self.fx:
+            choices.append('wait')
         k = r.choice(choices)
         self.n += 1
+        if k == 'wait':
+            return 'wait'
         if k in ('set', 'on', 'off'):
             tag, regs = self._regs('power' if k != 'set' else 'color')
             tgt, tk = self._target()
@@ -279,6 +308,13 @@ class ScriptGen:
 
     def cond(self):
         r = self.rng
+        if 'logic' in self.fx and r.random() < 0.5:
+            self.fx.discard('logic')
+            a, b, c = self.cond()[1:-1], self.cond()[1:-1], self.cond()[1:-1]
+            self.fx.add('logic')
+            return r.choice(['{{{} and {}}}', '{{{} or {}}}',
+                             '{{{} or {} and {c}}}', '{{({} or {}) and {c}}}',
+                             ]).format(a, b, c=c)
         if self.vars:
             v = r.choice(self.vars)
             return '{{{} {} {}}}'.format(v, r.choice(['<', '>', '==', '!=',
@@ -295,8 +331,74 @@ class ScriptGen:
         r = self.rng
         self.n += 1
         forms = ['count', 'count', 'with', 'all', 'group', 'while']
+        if 'break' in self.fx:
+            forms += ['forever', 'count_break']
+        if 'interp' in self.fx and not self.raw:
+            forms += ['interp', 'cycle', 'all_with']
+        if 'iter' in self.fx:
+            forms += ['in_list', 'groups', 'locations', 'in_location']
         f = r.choice(forms)
         n_body = r.randint(1, 2)
+        self.uniq += 1
+        u = self.uniq
+        if f == 'forever':
+            var = 'fv{}'.format(u)
+            body = 'begin {} assign {} {{{} + 1}} if {{{} >= {}}} break {} end'\
+                .format(self.statement(depth + 1, in_routine), var, var, var,
+                        self._num(1, 3),
+                        r.choice(['', self.command(depth + 1, in_routine)]))
+            return 'assign {} 0 repeat {}'.format(var, body)
+        if f == 'count_break':
+            var = 'cb{}'.format(u)
+            body = 'begin {} assign {} {{{} + 1}} if {{{} == {}}} break end'\
+                .format(self.statement(depth + 1, in_routine), var, var, var,
+                        self._num(1, 3))
+            return 'assign {} 0 repeat {} {}'.format(var, self._num(2, 4),
+                                                     body)
+        if f in ('interp', 'cycle', 'all_with'):
+            var = 'iv{}'.format(u)
+            reg = r.choice(['hue', 'brightness', 'saturation'])
+            a = self._num(0, 40)
+            b = a + r.choice([10, 15, 30, 60])
+            if f == 'cycle':
+                reg = 'hue'
+                rng_txt = r.choice(['cycle', 'cycle {}'.format(a)])
+            else:
+                rng_txt = 'from {} to {}'.format(*r.choice([(a, b), (b, a)]))
+            if f == 'all_with':
+                lv = 'bl{}'.format(u)
+                return ('repeat all as {} with {} {} begin {} {} kelvin {} '
+                        'set {} end').format(lv, var, rng_txt, reg, var,
+                                             1500 + self._next_tag(), lv)
+            tag, regs = self._regs('color')
+            tgt, _tk = self._target()
+            return 'repeat {} with {} {} begin {} {} {} set {} end'.format(
+                self._num(2, 4), var, rng_txt, regs, reg, var, tgt)
+        if f == 'in_list':
+            lv = 'il{}'.format(u)
+            parts = [self._quote(self._light())]
+            for _ in range(r.randint(1, 2)):
+                parts.append(r.choice([
+                    self._quote(self._light()),
+                    'group ' + self._quote(r.choice(self.groups)),
+                    'location ' + self._quote(r.choice(self.locs))]))
+            r.shuffle(parts)
+            return 'repeat in {} as {} begin kelvin {} set {} end'.format(
+                ' and '.join(parts), lv, 1500 + self._next_tag(), lv)
+        if f in ('groups', 'locations'):
+            gv = 'gl{}'.format(u)
+            word = 'group' if f == 'groups' else 'location'
+            inner = ''
+            if r.random() < 0.4:
+                inner = ' repeat in {} {} as m{} begin duration {} off m{} end'\
+                    .format(word, gv, u, self._next_tag(), u)
+            return 'repeat {} as {} begin kelvin {} set {} {}{} end'.format(
+                word, gv, 1500 + self._next_tag(), word, gv, inner)
+        if f == 'in_location':
+            lv = 'lm{}'.format(u)
+            return ('repeat in location {} as {} begin duration {} on {} end'
+                    .format(self._quote(r.choice(self.locs)), lv,
+                            self._next_tag(), lv))
         if f == 'count':
             return 'repeat {} {}'.format(self._num(1, 3),
                                          self.block(depth, n_body, in_routine))
@@ -334,6 +436,9 @@ class ScriptGen:
         r = self.rng
         self.n += 1
         s = 'if {} {}'.format(self.cond(), self.block(depth, 1, in_routine))
+        if 'elseif' in self.fx and r.random() < 0.5:
+            s += ' else if {} {}'.format(self.cond(),
+                                         self.block(depth, 1, in_routine))
         if r.random() < 0.5:
             s += ' else {}'.format(self.block(depth, 1, in_routine))
         return s
@@ -371,7 +476,7 @@ class ScriptGen:
                 choices.append('loop')
             if o['ifs']:
                 choices.append('if')
-        if self.routines and not in_routine:
+        if self.routines and (not in_routine or 'nested_calls' in self.fx):
             choices.append('call')
         k = r.choice(choices)
         if k == 'command':
@@ -394,9 +499,59 @@ class ScriptGen:
             parts.append('units raw')
         if not self.o['p_delay']:
             parts.append('time 0')
+        if 'macros' in self.fx:
+            for i in range(r.randint(1, 3)):
+                if r.random() < 0.6:
+                    name = 'mc{}'.format(i)
+                    v = self._num(0, 100)
+                    if self.num_macros and r.random() < 0.3:
+                        # a macro defined through another one
+                        other, v = r.choice(self.num_macros)
+                        parts.append('define {} {}'.format(name, other))
+                    else:
+                        parts.append('define {} {}'.format(name, v))
+                    self.num_macros.append((name, v))
+                else:
+                    name = 'ml{}'.format(i)
+                    if r.random() < 0.7:
+                        parts.append('define {} {}'.format(
+                            name, self._quote(r.choice(self.lights))))
+                        self.name_macros.append((name, 'light'))
+                    else:
+                        parts.append('define {} {}'.format(
+                            name, self._quote(r.choice(self.groups))))
+                        self.name_macros.append((name, 'group'))
+        if 'strvars' in self.fx:
+            for i in range(r.randint(1, 2)):
+                name = 'sv{}'.format(i)
+                if r.random() < 0.7:
+                    parts.append('assign {} {}'.format(
+                        name, self._quote(r.choice(self.lights))))
+                    self.name_macros.append((name, 'light'))
+                else:
+                    parts.append('assign {} {}'.format(
+                        name, self._quote(r.choice(self.groups))))
+                    self.name_macros.append((name, 'group'))
+        if 'functions' in self.fx and self.o['routines']:
+            for i in range(r.randint(1, 2)):
+                name = 'fn{}'.format(i)
+                k = self._num(0, 4)
+                form = r.choice(['plain', 'if', 'local'])
+                if form == 'plain':
+                    body = 'return {{fa + {}}}'.format(k)
+                elif form == 'if':
+                    body = ('begin if {{fa > {}}} return {{fa + {}}} '
+                            'return {{{} + fa}} end'.format(
+                                self._num(0, 50), k, k))
+                else:
+                    body = ('begin assign fl {{fa * 2}} '
+                            'return {{fl - fa + {}}} end'.format(k))
+                parts.append('define {} with fa {}'.format(name, body))
+                self.functions.append((name, k))
+        max_routines = 3 if 'nested_calls' in self.fx else 2
         target = r.randint(3, self.o['max_statements'])
         while self.n < target:
-            if (self.o['routines'] and len(self.routines) < 2
+            if (self.o['routines'] and len(self.routines) < max_routines
                     and r.random() < 0.15):
                 parts.append(self.routine_def())
             else:
@@ -409,4 +564,4 @@ def gen_script(rng, population, opts=None):
     g = ScriptGen(rng, population, opts)
     text = g.script()
     return text, {'commands': g.commands, 'statements': g.n, 'raw': g.raw,
-                  'parts': g.parts}
+                  'parts': g.parts, 'features': sorted(g.fx)}
